@@ -68,7 +68,7 @@ def _gen_op(rng, name):
             ["random", "random", "single", "all", "empty", "around-vertex",
              "subdomain", "bitmask", "bitmask"]),
             "frac": rng.choice([0.1, 0.3, 0.6]), "seed": sd,
-            "dtype": rng.choice(["int32", "int64", "list"]),
+            "dtype": rng.choice(["int32", "int64", "list", "tuple"]),
             "repeat": rng.random() < 0.2}
     if name in ("restrict", "remove", "restrict_map"):
         return {"op": name, "frac": rng.choice([0.2, 0.5, 0.8, 1.0]),
@@ -153,9 +153,17 @@ def generate(prop, rng, tier):
     nops = rng.choice([2, 3, 4, 5, 6, 8])
     # swarm: a random subset of the op pool is enabled for this run
     pool = list(spec["pool"])
+    if prop in ("C12", "C13") and rng.random() < 0.12:
+        # the same geometry in other units; operations whose library code
+        # (or whose check here) works with absolute coordinates stay out
+        rec["scale"] = rng.choice([1e-3, 3e-4, 1e-4, 1e3])
+        pool = [n for n in pool if n in ("refine_uniform", "refine_adaptive",
+                                         "tag_s", "tag_b", "restrict",
+                                         "oriented", "dirty_unused")]
     enabled = sorted(set(pool))
     drop = [n for n in enabled if rng.random() < 0.25]
-    pool = [n for n in pool if n not in drop] or list(spec["pool"])
+    pool = [n for n in pool if n not in drop] or \
+        (list(spec["pool"]) if not rec.get("scale") else list(spec["must"]))
     # choose operations that apply to the cell kind the history has at that
     # point (tracked statically: split and extrude change it)
     kind, o2 = cell, rec.get("order", 1) == 2
@@ -389,6 +397,8 @@ def _marked(st, o):
         ix = _subset(s.nt, o["frac"], o["seed"]).tolist()
     if o["dtype"] == "list":
         return [int(i) for i in ix], ix
+    if o["dtype"] == "tuple":
+        return tuple(int(i) for i in ix), ix
     arr = np.array(ix, dtype=o["dtype"])
     if o.get("repeat") and len(ix):
         # the same cell listed more than once (e.g. the owner cells of all
@@ -420,15 +430,21 @@ def step(st, o, prop, probes, faults):
                 if s.dim == 3:
                     m.edges, m.t2e
                 _bump(probes, "lazy-tables-warmed-before-op")
+                _library_view(m, s, probes, warm_only=True)
             except Exception:
                 pass
         if not o.get("discard"):
-            return _step(st, o, prop, probes, faults, catcher, skm)
+            tag = _step(st, o, prop, probes, faults, catcher, skm)
+            if st.m is not m:
+                _library_view(st.m, st.s, probes)
+            return tag
         saved = (st.m, st.s, st.pts, st.inside, dict(st.labels),
                  dict(st.sub_meas), dict(st.bnd_meas), dict(st.bnd_samples),
                  st.total, st.allow_unused)
         try:
             tag = _step(st, o, prop, probes, faults, catcher, skm)
+            if st.m is not m:
+                _library_view(st.m, st.s, probes)
         finally:
             (st.m, st.s, st.pts, st.inside, st.labels, st.sub_meas,
              st.bnd_meas, st.bnd_samples, st.total, st.allow_unused) = saved
@@ -441,6 +457,57 @@ def step(st, o, prop, probes, faults):
 
 def _bump(d, k, n=1):
     d[k] = d.get(k, 0) + n
+
+
+_REF_CENTRE = {"line": [0.5], "tri": [1 / 3, 1 / 3], "quad": [0.5, 0.5],
+               "tet": [0.25, 0.25, 0.25], "hex": [0.5, 0.5, 0.5],
+               "wedge": [1 / 3, 1 / 3, 0.5]}
+
+
+def _library_view(m, s, probes, warm_only=False):
+    """The library's own derived view of a (first-order) result mesh agrees
+    with its arrays: the default mapping sends the centre of the reference
+    cell to the centre of each cell, and the element finder returns, for the
+    centre of a cell, that cell.  (A mesh whose p and t are right but whose
+    mapping / search tree belong to another mesh is not a valid mesh.)"""
+    if s.order2 or s.nt == 0:
+        return
+    X = np.array(_REF_CENTRE[s.kind])[:, None]
+    mp = m.mapping()
+    F = np.asarray(mp.F(X))[:, :, 0]
+    own = G.verts(s.p, s.t, s.kind).mean(axis=0)          # (dim, nt)
+    sel = np.unique(np.linspace(0, s.nt - 1, min(s.nt, 6)).astype(int))
+    found = None
+    try:
+        finder = m.element_finder()
+        found = np.asarray(finder(*[own[d, sel] for d in range(s.dim)]))
+    except NotImplementedError:
+        pass
+    except ValueError:
+        found = "raised"
+    if warm_only:
+        return
+    _bump(probes, "library-view-checked")
+    sc = K.scale_of(s.p)
+    if F.shape != own.shape or np.abs(F - own).max() > 1e-9 * sc:
+        raise Bad("valid-library-mapping-disagrees-with-arrays",
+                  max_diff=float(np.abs(F - own).max())
+                  if F.shape == own.shape else None)
+    if found is None:
+        return
+    # the centre of a convex cell lies strictly inside it; skip the finder
+    # verdict when own point location says it is not clear-cut (overlapping
+    # or folded cells are somebody else's finding)
+    loc = G.locate(own[:, sel], s.p, s.t, s.kind, tol=1e-7)
+    clear = [len(h) == 1 and h[0][1] > 1e-3 for h in loc]
+    if isinstance(found, str):
+        if all(clear):
+            raise Bad("valid-library-finder-fails-at-cell-centres")
+        return
+    for j, c in enumerate(sel.tolist()):
+        if clear[j] and int(found[j]) != c:
+            raise Bad("valid-library-finder-returns-other-cell",
+                      cell=int(c), found=int(found[j]))
 
 
 def _step(st, o, prop, probes, faults, catcher, skm):
